@@ -8,6 +8,7 @@ import Astm.Lemmas.Frame
 import Astm.Lemmas.Record
 import Astm.Lemmas.Regex
 import Astm.Generated.Schemas
+import Astm.Contract.Schemas
 
 namespace Astm.C18
 open Astm Astm.Rx Astm.Vendor
@@ -104,6 +105,14 @@ theorem placeholders_land_in_schema_fields :
   constructor
   · decide +kernel
   · decide +kernel
+
+/-- the schemas the converted messages are read with (fields, kinds, lengths, codes, defaults of the miniVidas and
+    Spotchem record classes) are those of the reviewed contract: a value the converter places is stored under the
+    constraints the contract states, not under tighter ones -/
+theorem vendor_schemas_eq_contract :
+    Astm.Gen.schemas.filter (fun m => m.name == "spotchem_el" || m.name == "biomerieux_mini_vidas") =
+    Astm.Contract.schemas.filter (fun m => m.name == "spotchem_el" || m.name == "biomerieux_mini_vidas") := by
+  decide +kernel
 
 /-- A converted vendor line — with or without a preceding ENQ, in every state — produces no reply,
     hands exactly one item (the rendering of exactly its frames) to the queue, and leaves no transfer
